@@ -97,7 +97,7 @@ def enumerate_cases(tier, scope):
     # a three-level tree under spec classes with another namespace separator
     deep = pm.ns({'r': pm.ns({'s': pm.ns({'e': pm.port(required=True, valid_type='int')}, valid_type='int'), 'x': pm.ns({}, valid_type='int', required=False)}), 'a': pm.port(required=False)})
     for sep in SEPARATORS:
-        for emissions in ([['r.s.e', 1]], [['r.s.e', 's']], [['r.s.e', 1], ['r.x.a', 1]], [['r.s.e', 1], ['r.x.a', 's']], [['r.s.e', 1], ['r.x.n.m', 2]], [['r.s.e', 1], ['r.s.dyn', 3], ['a', 0]], [['a', 1]]):
+        for emissions in ([['r.s.e', 1]], [['r.s.e', 's']], [['r.s.e', 1], ['r.x.a', 1]], [['r.s.e', 1], ['r.x.a', 's']], [['r.s.e', 1], ['r.x.n.m', 2]], [['r.s.e', 1], ['r.x.n.o.p.m', 2]], [['r.s.e', 1], ['r.x.n.o.p.m', 's']], [['r.s.e', 1], ['r.s.dyn', 3], ['a', 0]], [['a', 1]]):
             yield {'spec': deep, 'emissions': emissions, 'ret': 0, 'sep': sep}
 
 
